@@ -1543,8 +1543,11 @@ where
         }
     }
     Some(QRDecompositionTensor {
-        // This should always be Some because the input matrix has to be at least 1x1
-        q: q.unwrap(),
+        // No householder reflections are needed for a 1x1 input, in which case Q is the 1x1
+        // identity matrix and R is the input
+        q: q.unwrap_or_else(|| {
+            Tensor::diagonal([(shape[0].0, rows), (shape[1].0, rows)], T::one())
+        }),
         r,
     })
 }
